@@ -47,7 +47,7 @@ ASSUMPTIONS = ["the requested range coincides with the equal partition (binmin=a
                "when run() returns normally every output must agree completely with the model, whether or not a fault was injected; when it fails after an "
                "injected fault (OSError / crash) only prefix-consistency of what is on the simulated disk is required",
                "convergence within the step cap is not required (BUDGET); non-termination of the block/cluster moves is BUDGET"]
-PROBES = ["kappa_above_one_binned_to_top", "stopped_at_f_equal_threshold", "flatcheck_exact_tie", "start_outside_range", "proposal_outside_range_with_u_zero", "u_just_below_P", "u_just_above_P", "accepted_uphill", "rejected_step",
+PROBES = ["rerun_on_same_machine", "kappa_above_one_binned_to_top", "stopped_at_f_equal_threshold", "flatcheck_exact_tie", "start_outside_range", "proposal_outside_range_with_u_zero", "u_just_below_P", "u_just_above_P", "accepted_uphill", "rejected_step",
           "flatcheck_flat", "flatcheck_not_flat", "converged", "step_cap_hit", "hook_assisted", "seam_only", "fs_fault_fired", "crash_fired",
           "restart_into_dirty_dir", "restart_after_crash", "oserror_propagated", "partial_range", "warm_sequence_object", "permutants_api",
           "iteration_ge_3", "aborted_by_move", "same_bin_accept", "multi_bin_visit"]
@@ -104,6 +104,8 @@ def gen_plan(streams, tier):
         else:
             fault = {"kind": "crash", "at": at, "torn": frnd.randrange(0, 40)}
     restart = frnd.random() < (0.5 if fault["kind"] != "none" else 0.12)
+    if restart and frnd.random() < 0.4:
+        restart = "same_machine"       # the caller retries run() on the same machine object (e.g. after a transient I/O error)
     return {"property": ID, "run_seed": streams.run_seed, "seq": seq, "cfg": cfg,
             "input": rnd.choice(("string", "string", "object_fresh", "object_warm", "permutants_api")),
             "frozen": sorted(rnd.sample(range(len(seq)), rnd.randrange(0, 3))) if rnd.random() < 0.15 else [],
@@ -131,6 +133,9 @@ def corpus():
     mk("flatcheck_every_step", "GKEGKEKEGS", {"M": 2, "a": 0, "b": 2, "flatchk": 1, "flatcrit": 0.9, "c": 0.2})
     mk("crash_then_restart", "GKEGKEKEGS", full, fault={"kind": "crash", "at": 45, "torn": 7}, restart=True)
     mk("restart_after_clean_run", "GKEGKEKEGS", full, restart=True)
+    mk("retry_on_same_machine_after_eio", "GKEGKEKEGS", full, fault={"kind": "eio", "at": 60}, restart="same_machine")
+    mk("retry_on_same_machine_after_enospc", "GKEGKEKEGS", full, fault={"kind": "enospc", "bytes": 260}, restart="same_machine")
+    mk("second_run_on_same_machine", "GKEGKEKEGS", full, restart="same_machine")
     mk("enospc_mid_run", "GKEGKEKEGS", full, fault={"kind": "enospc", "bytes": 150})
     mk("eio_during_init", "GKEGKEKEGS", full, fault={"kind": "eio", "at": 5})
     mk("eacces_on_dos", "GKEGKEKEGS", full, fault={"kind": "eacces", "file": "DOS.txt"}, restart=True)
@@ -774,6 +779,7 @@ def _execute(plan, ctx, fs, wl, seqmod, permmod, Sequence, SequenceException, cl
     nruns = 2 if plan.get("restart") else 1
     fault = plan.get("fault", {"kind": "none"})
     first_failed = False
+    machine_box = [None]
     for run_no in range(nruns):
         sim = WLSim(plan, ctx, fs, wl, seqmod, Sequence, run_no)
         cur["sim"] = sim
@@ -800,12 +806,16 @@ def _execute(plan, ctx, fs, wl, seqmod, permmod, Sequence, SequenceException, cl
                   convergence=conv_of(cfg))
         outcome, ret, err = "returned", None, None
         try:
-            if plan["input"] == "permutants_api":
+            if run_no == 1 and plan.get("restart") == "same_machine" and machine_box[0] is not None:
+                ctx.probe("rerun_on_same_machine")
+                machine = machine_box[0]
+            elif plan["input"] == "permutants_api":
                 ctx.probe("permutants_api")
                 P = permmod.SequencePermutants(plan["seq"])
                 P.initializeWangLandauParameters(OUTDIR, set(plan.get("frozen", [])), b - a, a / float(M), b / float(M),
                                                  cfg["flatchk"], cfg["flatcrit"], conv_of(cfg))
                 machine = P.WLM
+                machine_box[0] = machine
             else:
                 seq_in = plan["seq"]
                 if plan["input"].startswith("object"):
@@ -814,6 +824,7 @@ def _execute(plan, ctx, fs, wl, seqmod, permmod, Sequence, SequenceException, cl
                         seq_in.kappa()
                         ctx.probe("warm_sequence_object")
                 machine = wl.WangLandauMachine(seq_in, OUTDIR, set(plan.get("frozen", [])), **kw)
+            machine_box[0] = machine
             ret = machine.run()
         except StepCap:
             outcome = "step_cap"
